@@ -386,7 +386,7 @@ func (t *Taint) callResultTainted(c *ssa.Call, idx int) bool {
 	if untaintedResult(cal.Name) {
 		return false
 	}
-	if c.Common().IsInvoke() {
+	if c.Common().IsInvoke() && strings.HasPrefix(cal.Name, "fdo") {
 		// module interface resolved by CHA: any implementation returning taint
 		for _, e := range t.p.CallGraph().out[c.Parent()] {
 			if e.Site == ssa.Instruction(c) && e.Kind != "codec" && t.rets[e.Callee][idx] {
